@@ -53,3 +53,23 @@ Lemma deliver_over limit size : 0 < limit -> limit < size -> deliver limit size 
 Proof. unfold deliver. intros. destruct (Z.leb_spec limit 0); destruct (Z.leb_spec size limit); cbn; auto; lia. Qed.
 Lemma deliver_upto limit size : size <= limit -> deliver limit size = true.
 Proof. unfold deliver. intros. destruct (Z.leb_spec limit 0); destruct (Z.leb_spec size limit); cbn; auto; lia. Qed.
+
+(* ---- independence: what the options of one kind set does not depend on the options of the other kinds ---- *)
+Definition is_rl_d (o : dial_opt) : bool := match o with DReadLimit _ => true | _ => false end.
+Definition is_wt_d (o : dial_opt) : bool := match o with DWriteTimeout _ => true | _ => false end.
+Definition is_rl_s (o : srv_opt) : bool := match o with SReadLimit _ => true | _ => false end.
+Definition is_wt_s (o : srv_opt) : bool := match o with SHTTPReadTimeout _ _ => true | _ => false end.
+Lemma last_rl_d_filter os : forall acc, last_rl_d (filter is_rl_d os) acc = last_rl_d os acc.
+Proof. induction os as [|[v|d|] r IH]; intros acc; cbn; auto. Qed.
+Lemma last_wt_d_filter os : forall acc, last_wt_d (filter is_wt_d os) acc = last_wt_d os acc.
+Proof. induction os as [|[v|d|] r IH]; intros acc; cbn; auto. Qed.
+Lemma last_rl_s_filter os : forall acc, last_rl_s (filter is_rl_s os) acc = last_rl_s os acc.
+Proof. induction os as [|[v|a b|] r IH]; intros acc; cbn; auto. Qed.
+Lemma last_wt_s_filter os : forall acc, last_wt_s (filter is_wt_s os) acc = last_wt_s os acc.
+Proof. induction os as [|[v|a b|] r IH]; intros acc; cbn; auto. Qed.
+Theorem client_independent K os :
+  rl (client_eff K os) = rl (client_eff K (filter is_rl_d os)) /\ wt (client_eff K os) = wt (client_eff K (filter is_wt_d os)).
+Proof. rewrite !client_read_limit, !client_write_timeout, last_rl_d_filter, last_wt_d_filter. auto. Qed.
+Theorem server_independent K os : srv_read_limit K <> 0 -> srv_ws_timeout K = tr_write_timeout K ->
+  rl (server_eff K os) = rl (server_eff K (filter is_rl_s os)) /\ wt (server_eff K os) = wt (server_eff K (filter is_wt_s os)).
+Proof. intros A B. rewrite !server_read_limit, !server_write_timeout, last_rl_s_filter, last_wt_s_filter; auto. Qed.
